@@ -44,9 +44,9 @@ CONSTANTS
   MaxBlockTxs,   \* bound: transactions in a block mined on the tip
   MaxReorgTxs,   \* bound: transactions in the blocks of a new branch
   Standalone,    \* enable the free-standing Remove*/ProcessOrphans calls
-  DisconnectEvicts, \* FALSE: NTBlockDisconnected as netsync implements it; TRUE: the repaired protocol
-                 \* (spenders of the disconnected coinbase and of transactions that could not be
-                 \* re-added are evicted), under which `stale` stays empty
+  DisconnectEvicts, \* TRUE: NTBlockDisconnected as netsync implements it since btcd d5392345 (spenders of the
+                 \* disconnected coinbase and of transactions that could not be re-added are evicted),
+                 \* under which `stale` stays empty; FALSE: the protocol before that repair
   Script         \* <<>>: every interleaving; otherwise the only schedule explored, a sequence of
                  \* <<kind, tx>> with kind 1 = ProcessTx(tx, TRUE), 2 = CheckAccept(tx), 3 = RemoveTx(tx, TRUE)
                  \* (boundary scenarios with a hundred transactions)
@@ -61,7 +61,8 @@ VARIABLES
   orph,     \* TxPool.orphans (set of txs)
   obp,      \* TxPool.orphansByPrev: function outpoint -> non-empty set of orphans
   penny,    \* TxPool.pennyTotal (bytes, no decay)
-  stale,    \* pooled txs left behind by a disconnect with an input that exists nowhere (known defect)
+  stale,    \* pooled txs left behind by a disconnect with an input that exists nowhere (always empty
+            \* with DisconnectEvicts; documents the defect repaired by btcd d5392345 otherwise)
   step      \* position in Script (stays 0 without a script)
 
 vars == <<chain, content, used, cutxo, pool, sb, orph, obp, penny, stale, step>>
@@ -389,8 +390,8 @@ MaybeAcceptTx(t, newAndLimited) ==
   /\ Script = <<>> /\ KeepChain /\ SetPS(m.ps)
 
 \* TxPool.CheckMempoolAcceptance(tx): a dry run.  The code runs
-\* checkMempoolAcceptance(tx, true, true, true) under the read lock, which
-\* nevertheless updates the rate limiter.
+\* checkMempoolAcceptance(tx, true, true, true) (under the write lock since btcd
+\* b3ec2053), which still updates the rate limiter.
 CheckAccept(t) ==
   LET c == Check(t, PS, CVnow, TRUE, TRUE, TRUE) IN
   /\ Sched(2, t) /\ KeepChain /\ SetPS([PS EXCEPT !.penny = c.penny])
